@@ -86,3 +86,13 @@ Theorem C05_return_goes_behind_the_expansion : forall s bp cl co out cl' co' pre
   nth_error (map pop_of_oitem out) (length out - 1) = Some (PLabel (S (S cl))).
 Proof. exact return_goes_behind_the_expansion. Qed.
 Print Assumptions C05_return_goes_behind_the_expansion.
+
+(* an expansion defines each of its labels once if the blueprint does (evaluated on every real blueprint): with the
+   theorem about private labels, pseudo code holding any number of expansions keeps unique label definitions - a premise
+   of the theorems about the label passes (C01, C03) *)
+From ES Require Import Comp.DefsOnce.
+
+Theorem C05_expansion_defines_each_label_once : forall s bp cl co out cl' co',
+  build s bp cl co = (out, cl', co') -> NoDup (def_ids bp) -> NoDup (out_defs out).
+Proof. exact expansion_defines_each_label_once. Qed.
+Print Assumptions C05_expansion_defines_each_label_once.
